@@ -97,6 +97,8 @@ pub fn term_violations(cfg: &Config, o: &Outcome) -> Vec<Violation> {
             "signal:alloc-failure".to_string()
         } else if sig == libc::SIGXCPU || sig == libc::SIGKILL {
             "signal:hang(SIGXCPU)".to_string()
+        } else if sig == libc::SIGXFSZ {
+            "signal:output-runaway(SIGXFSZ)".to_string()
         } else if let Some(pc) = panic_class(cfg, &stderr) {
             format!("{}(abort)", pc)
         } else {
